@@ -277,7 +277,7 @@ class World:
                 self.delivered["pf"] += 1
             if tr_kind == "astray":
                 return
-            if self.timing.get("pf_switch"):
+            if self.timing.get("pf_switch") and self.pf_switch_allowed():
                 self.switch("s_pf", 1)
                 self.at(GRID, self.switch, "s_pf", 0)
             return
@@ -290,6 +290,20 @@ class World:
         self.slots[dst][free[0]] = ball
         self.note("entered", dst, ball, src)
         self.switch(self.topo[dst]["switches"][free[0]], 1)
+
+    def pf_switch_allowed(self):
+        """a playfield switch can only be hit by a loose ball; and while a ball that was ejected towards the playfield
+        is falling back into its device, a hit by *another* ball is indistinguishable from the confirmation of that
+        eject (MPF would confirm it and let the next ball be fired at the still-returning one): not generated"""
+        if not self.loose:
+            return False
+        for x in self.transit:
+            if x["kind"] == "fallback" and self.topo[x["src"]]["exit"] == "pf":
+                return False
+        for d, k in self.kick.items():
+            if k is not None and k[3] == "fallback" and self.topo[d]["exit"] == "pf":
+                return False
+        return True
 
     # -- player / physics actions
     def move_loose_to(self, dst):
@@ -830,8 +844,11 @@ def _run_case(case, run, res, model):
                     continue
                 res.count("act_noop")
             elif k == "pf_hit":
-                world.switch("s_pf", 1)
-                world.switch("s_pf", 0)
+                if world.pf_switch_allowed():
+                    world.switch("s_pf", 1)
+                    world.switch("s_pf", 0)
+                else:
+                    res.count("act_noop")
             elif k == "wait":
                 alive = advance(op[1] * GRID)
                 continue
